@@ -12,6 +12,8 @@ sys.path.insert(0, '.')
 from verif_lib import build
 p, s, regen = build.mir_dump()
 print('mir dump', p, f'{s:.1f}s')
+p, s, regen = build.mir_dump(variant='full')
+print('mir dump (full feature set)', p, f'{s:.1f}s')
 b, s = build.replay_binary()
 print('replay binary', b, f'{s:.1f}s')
 PY
